@@ -27,6 +27,7 @@
 #ifndef MP_SOL_H_
 #define MP_SOL_H_
 
+#include <cerrno>
 #include <cstdio>
 #include <cstring>
 #include <algorithm>
@@ -123,6 +124,20 @@ void WriteSolFile(fmt::CStringRef filename, const Solution &sol) {
   suf::Kind kinds[] = {suf::VAR, suf::CON, suf::OBJ, suf::PROBLEM};
   for (std::size_t i = 0, n = sizeof(kinds) / sizeof(*kinds); i < n; ++i)
     internal::WriteSuffixes(file, sol.suffixes(kinds[i]));
+  // Report a write failure (e.g., disk full)
+  // instead of silently leaving a truncated file.
+  bool failed = std::ferror(file.get()) != 0;
+  int error_code = errno;
+  try {
+    file.close();
+  } catch (const fmt::SystemError &e) {
+    failed = true;
+    error_code = e.error_code();
+  }
+  if (failed) {
+    std::remove(filename.c_str());
+    throw fmt::SystemError(error_code, "cannot write file {}", filename);
+  }
 }
 
 }  // namepace mp
